@@ -228,6 +228,45 @@ func Locksets(events []*pw.Event, entry Held) []Held {
 }
 
 // funcDeclOf finds the declaration of Type.Method / Func.
+// onlyCalledFrom returns a predicate: fn is one of the allowed functions, or an unexported function all of whose in-package callers
+// (transitively, up to 3 levels) are.
+func (c *Ctx) onlyCalledFrom(allowed func(name string) bool) func(fn *types.Func) bool {
+	info := c.Pkg.TypesInfo
+	callers := map[*types.Func]map[*types.Func]bool{}
+	byName := map[*types.Func]string{}
+	c.eachFuncDecl(func(fd *ast.FuncDecl, fn *types.Func) {
+		byName[fn.Origin()] = strings.TrimPrefix(pw.FuncName(fn), "cache.")
+		ast.Inspect(fd.Body, func(x ast.Node) bool {
+			if call, ok := x.(*ast.CallExpr); ok {
+				if callee, _ := typeutil.Callee(info, call).(*types.Func); callee != nil && callee.Pkg() == c.Pkg.Types {
+					if callers[callee.Origin()] == nil {
+						callers[callee.Origin()] = map[*types.Func]bool{}
+					}
+					callers[callee.Origin()][fn.Origin()] = true
+				}
+			}
+			return true
+		})
+	})
+	var ok func(fn *types.Func, depth int) bool
+	ok = func(fn *types.Func, depth int) bool {
+		fn = fn.Origin()
+		if allowed(byName[fn]) {
+			return true
+		}
+		if fn.Exported() || depth > 3 || len(callers[fn]) == 0 {
+			return false
+		}
+		for caller := range callers[fn] {
+			if !ok(caller, depth+1) {
+				return false
+			}
+		}
+		return true
+	}
+	return func(fn *types.Func) bool { return ok(fn, 0) }
+}
+
 func (c *Ctx) declPos(name string) string {
 	if fd, _ := c.funcDecl(name); fd != nil {
 		return c.Pos(fd.Pos())
